@@ -941,4 +941,400 @@ theorem partitionRanges_eq (bounds : List Bool) (len : Nat) :
     have : (cur != bounds.length + 1) = true := by simp at hle ⊢; omega
     simp [this]
 
+
+/-! ### rank -/
+
+namespace TotalPreCmp
+variable {α : Type} {cmp : α → α → Ordering}
+/-- equivalent right operands give the same verdict -/
+theorem congr_right (h : TotalPreCmp cmp) {a b c : α} (hbc : cmp b c = .eq) : cmp a b = cmp a c := by
+  have hcb : cmp c b = .eq := by rw [h.swap b c, hbc]; rfl
+  cases hab : cmp a b with
+  | lt => exact (h.lt_of_lt_of_le hab (by simp [hbc])).symm
+  | eq => exact (h.eq_trans hab hbc).symm
+  | gt =>
+    have hba : cmp b a = .lt := by rw [h.swap a b, hab]; rfl
+    have hca : cmp c a = .lt := h.lt_of_le_of_lt (by simp [hcb]) hba
+    rw [h.swap c a, hca]; rfl
+end TotalPreCmp
+
+/-- number of entries `≤ v` -/
+def cntLe {β : Type} (c : β → β → Ordering) (L : List β) (v : β) : Nat :=
+  (L.filter (fun u => c u v != .gt)).length
+
+theorem rankLoop_ok {α : Type} (cmp : α → α → Ordering) (d : Bool)
+    (hc : TotalPreCmp (fun u v : α × Nat => applyDesc d (cmp u.1 v.1))) (base : Nat) :
+    ∀ (rest suf' : List (α × Nat)) (w1p : α × Nat) (validRank count : Nat) (out : List Nat),
+    let c := fun u v : α × Nat => applyDesc d (cmp u.1 v.1)
+    let L := rest.reverse ++ (w1p :: suf')
+    L.Pairwise (fun u v => c u v ≠ .gt) →
+    validRank = base + cntLe c L w1p →
+    count = ((w1p :: suf').filter (fun u => c u w1p == .eq)).length →
+    (L.map (·.2)).Nodup →
+    (∀ u ∈ L, u.2 < out.length) →
+    (∀ u ∈ w1p :: suf', out[u.2]? = some (base + cntLe c L u)) →
+    let out' := rankLoop (fun a b => cmp a b == .eq) rest w1p.1 validRank count out
+    out'.length = out.length ∧ (∀ u ∈ L, out'[u.2]? = some (base + cntLe c L u)) ∧
+      (∀ i, (∀ u ∈ L, u.2 ≠ i) → out'[i]? = out[i]?) := by
+  intro rest
+  induction rest with
+  | nil =>
+    intro suf' w1p validRank count out c L _ _ _ _ _ hOut
+    refine ⟨rfl, ?_, fun _ _ => rfl⟩
+    intro u hu
+    have : u ∈ w1p :: suf' := by simpa [L] using hu
+    exact hOut u this
+  | cons w0 rest ih =>
+    intro suf' w1p validRank count out c L hS hVR hC hND hlen hOut
+    have hrefl : ∀ u, c u u = .eq := hc.refl
+    have hswap : ∀ u v, c v u = (c u v).swap := hc.swap
+    have hL : L = rest.reverse ++ (w0 :: w1p :: suf') := by simp [L]
+    have hL2 : L = (rest.reverse ++ [w0]) ++ (w1p :: suf') := by simp [L]
+    -- order facts
+    have hS' := hS; rw [hL, List.pairwise_append] at hS'
+    obtain ⟨_, hS2, hS3⟩ := hS'
+    rw [List.pairwise_cons] at hS2
+    obtain ⟨h2a, h2b⟩ := hS2
+    rw [List.pairwise_cons] at h2b
+    have F1 : ∀ u ∈ rest.reverse ++ [w0], c u w0 ≠ .gt := by
+      intro u hu
+      rcases List.mem_append.mp hu with h | h
+      · exact hS3 u h w0 (by simp)
+      · have : u = w0 := by simpa using h
+        subst this; rw [hrefl]; simp
+    have F2 : ∀ v ∈ w1p :: suf', c w1p v ≠ .gt := by
+      intro v hv
+      rcases List.mem_cons.mp hv with h | h
+      · subst h; rw [hrefl]; simp
+      · exact h2b.1 v h
+    have F3 : c w0 w1p ≠ .gt := h2a w1p (by simp)
+    have F4 : ∀ u ∈ rest.reverse ++ [w0], ∀ v ∈ w1p :: suf', c u v ≠ .gt := by
+      intro u hu v hv
+      rcases List.mem_append.mp hu with h | h
+      · exact hS3 u h v (by simp [List.mem_cons.mp hv])
+      · have : u = w0 := by simpa using h
+        subst this; exact h2a v hv
+    -- index facts
+    have hND' := hND; rw [hL, List.map_append, List.nodup_append] at hND'
+    have hnd2 := (List.nodup_cons.mp hND'.2.1).1
+    have hne : ∀ u ∈ w1p :: suf', u.2 ≠ w0.2 := by
+      intro u hu e
+      exact hnd2 (List.mem_map.mpr ⟨u, hu, e⟩)
+    have hw0L : w0 ∈ L := by rw [hL]; simp
+    have hw0len : w0.2 < out.length := hlen w0 hw0L
+    have hc0 : (c w0 w1p = .eq) ↔ ((cmp w0.1 w1p.1 == .eq) = true) := by
+      show applyDesc d (cmp w0.1 w1p.1) = .eq ↔ _
+      cases d <;> cases cmp w0.1 w1p.1 <;> simp [applyDesc, Ordering.swap]
+    by_cases heq : (cmp w0.1 w1p.1 == .eq) = true
+    · -- same group
+      have hce : c w0 w1p = .eq := hc0.mpr heq
+      have hcongr : ∀ u, c u w0 = c u w1p := fun u => hc.congr_right hce
+      have hcnt : cntLe c L w0 = cntLe c L w1p := by
+        unfold cntLe; congr 1; apply List.filter_congr; intro u _; rw [hcongr u]
+      have hfc : ((w0 :: w1p :: suf').filter (fun u => c u w0 == .eq)).length = count + 1 := by
+        rw [List.filter_cons]
+        have h00 : (c w0 w0 == .eq) = true := by rw [hrefl]; rfl
+        rw [if_pos h00, List.length_cons, hC]
+        congr 2; apply List.filter_congr; intro u _; rw [hcongr u]
+      have step : rankLoop (fun a b => cmp a b == .eq) (w0 :: rest) w1p.1 validRank count out
+          = rankLoop (fun a b => cmp a b == .eq) rest w0.1 validRank (count + 1) (out.set w0.2 validRank) := by
+        simp only [rankLoop, heq]
+      have := ih (w1p :: suf') w0 validRank (count + 1) (out.set w0.2 validRank)
+        (by rw [← hL]; exact hS) (by rw [← hL, hcnt]; exact hVR)
+        hfc.symm
+        (by rw [← hL]; exact hND)
+        (by intro u hu; rw [List.length_set]; exact hlen u (by rw [hL]; exact hu))
+        (by
+          intro u hu
+          rw [← hL]
+          rcases List.mem_cons.mp hu with h | h
+          · subst h; rw [List.getElem?_set_self hw0len, hVR, hcnt]
+          · rw [List.getElem?_set_ne (Ne.symm (hne u h))]; exact hOut u h)
+      simp only [] at this
+      rw [← hL] at this
+      obtain ⟨r1, r2, r3⟩ := this
+      show (rankLoop _ (w0 :: rest) w1p.1 validRank count out).length = _ ∧ _
+      rw [step]
+      refine ⟨by rw [r1, List.length_set], r2, ?_⟩
+      intro i hi
+      rw [r3 i hi, List.getElem?_set_ne (hi w0 hw0L)]
+    · -- new group: w0 < w1p
+      have hlt : c w0 w1p = .lt := by
+        cases hcc : c w0 w1p with
+        | lt => rfl
+        | eq => exact absurd (hc0.mp hcc) heq
+        | gt => exact absurd hcc F3
+      have hgt : ∀ v ∈ w1p :: suf', c v w0 = .gt := by
+        intro v hv
+        have this : c w0 v = .lt := hc.lt_of_lt_of_le hlt (F2 v hv)
+        rw [hswap w0 v, this]; rfl
+      have hcntw0 : cntLe c L w0 = (rest.reverse ++ [w0]).length := by
+        unfold cntLe
+        rw [hL2, List.filter_append, List.length_append]
+        have e1 : (rest.reverse ++ [w0]).filter (fun u => c u w0 != .gt) = rest.reverse ++ [w0] := by
+          apply List.filter_eq_self.mpr; intro u hu; simpa using F1 u hu
+        have e2 : (w1p :: suf').filter (fun u => c u w0 != .gt) = [] := by
+          apply List.filter_eq_nil_iff.mpr; intro u hu; simp [hgt u hu]
+        rw [e1, e2]; simp
+      have hcntw1 : cntLe c L w1p = (rest.reverse ++ [w0]).length + count := by
+        unfold cntLe
+        rw [hL2, List.filter_append, List.length_append]
+        have e1 : (rest.reverse ++ [w0]).filter (fun u => c u w1p != .gt) = rest.reverse ++ [w0] := by
+          apply List.filter_eq_self.mpr; intro u hu; simpa using F4 u hu w1p (by simp)
+        have e2 : (w1p :: suf').filter (fun u => c u w1p != .gt) = (w1p :: suf').filter (fun u => c u w1p == .eq) := by
+          apply List.filter_congr; intro u hu
+          have h1 := F2 u hu
+          rw [hswap u w1p] at h1
+          cases hcu : c u w1p <;> simp [hcu, Ordering.swap] at h1 ⊢
+        rw [e1, e2, hC]
+      have hfc1 : ((w0 :: w1p :: suf').filter (fun u => c u w0 == .eq)).length = 1 := by
+        rw [List.filter_cons]
+        have h00 : (c w0 w0 == .eq) = true := by rw [hrefl]; rfl
+        have e2 : (w1p :: suf').filter (fun u => c u w0 == .eq) = [] := by
+          apply List.filter_eq_nil_iff.mpr; intro u hu; simp [hgt u hu]
+        rw [if_pos h00, e2]; rfl
+      have hvr : validRank - count = base + cntLe c L w0 := by rw [hVR, hcntw1, hcntw0]; omega
+      have step : rankLoop (fun a b => cmp a b == .eq) (w0 :: rest) w1p.1 validRank count out
+          = rankLoop (fun a b => cmp a b == .eq) rest w0.1 (validRank - count) 1 (out.set w0.2 (validRank - count)) := by
+        simp only [rankLoop, heq]
+      have := ih (w1p :: suf') w0 (validRank - count) 1 (out.set w0.2 (validRank - count))
+        (by rw [← hL]; exact hS) (by rw [← hL]; exact hvr)
+        hfc1.symm
+        (by rw [← hL]; exact hND)
+        (by intro u hu; rw [List.length_set]; exact hlen u (by rw [hL]; exact hu))
+        (by
+          intro u hu
+          rw [← hL]
+          rcases List.mem_cons.mp hu with h | h
+          · subst h; rw [List.getElem?_set_self hw0len, hvr]
+          · rw [List.getElem?_set_ne (Ne.symm (hne u h))]; exact hOut u h)
+      simp only [] at this
+      rw [← hL] at this
+      obtain ⟨r1, r2, r3⟩ := this
+      show (rankLoop _ (w0 :: rest) w1p.1 validRank count out).length = _ ∧ _
+      rw [step]
+      refine ⟨by rw [r1, List.length_set], r2, ?_⟩
+      intro i hi
+      rw [r3 i hi, List.getElem?_set_ne (hi w0 hw0L)]
+
+theorem validPairs_perm {α : Type} (slot : Nat → Option α) (l : List Nat) :
+    ((l.filterMap (fun i => (slot i).map (fun v => (v, i)))).map (·.2) ++
+      l.filter (fun i => (slot i).isNone)).Perm l := by
+  induction l with
+  | nil => simp
+  | cons x xs ih =>
+    cases hx : slot x with
+    | none =>
+      simp only [List.filterMap_cons, hx, Option.map_none, List.filter_cons, Option.isNone_none, if_true]
+      exact List.perm_middle.trans (List.Perm.cons x ih)
+    | some v =>
+      simp only [List.filterMap_cons, hx, Option.map_some, List.map_cons, List.filter_cons,
+        Option.isNone_some, List.cons_append]
+      exact List.Perm.cons x ih
+
+/-- counting rows `≤ row i` splits into valid rows and null rows -/
+theorem count_split {α : Type} (slot : Nat → Option α) (n : Nat) (P : Nat → Bool) :
+    ((List.range n).filter P).length =
+      (((List.range n).filterMap (fun i => (slot i).map (fun v => (v, i)))).filter (fun u => P u.2)).length +
+      (((List.range n).filter (fun i => (slot i).isNone)).filter P).length := by
+  have hp := (validPairs_perm slot (List.range n)).symm
+  rw [(hp.filter P).length_eq, List.filter_append, List.length_append, List.filter_map, List.length_map]
+  rfl
+
+theorem rankImpl_ok {α : Type} (cmp : α → α → Ordering) (hc : TotalPreCmp cmp) (o : SortOptions)
+    (slot : Nat → Option α) (n : Nat) (L : List (α × Nat))
+    (hLsorted : L.Pairwise (fun u v => applyDesc o.descending (cmp u.1 v.1) ≠ .gt))
+    (hLperm : L.Perm ((List.range n).filterMap (fun i => (slot i).map (fun v => (v, i))))) :
+    let validRank := match o.nullsFirst with | true => n | false => L.length
+    let nullRank := match o.nullsFirst with | true => n - L.length | false => n
+    let out := List.replicate n nullRank
+    (match L.reverse with
+      | [] => out
+      | last :: rest => rankLoop (fun a b => cmp a b == .eq) rest last.1 validRank 1 (out.set last.2 validRank))
+    = (List.range n).map (fun i => ((List.range n).filter
+        (fun j => compareSlot cmp o (slot j) (slot i) != .gt)).length) := by
+  intro validRank nullRank out
+  let c := fun u v : α × Nat => applyDesc o.descending (cmp u.1 v.1)
+  have hcT : TotalPreCmp c := (applyDesc_totalPreCmp hc o.descending).comap (fun p : α × Nat => p.1)
+  let valid := (List.range n).filterMap (fun i => (slot i).map (fun v => (v, i)))
+  let nulls := (List.range n).filter (fun i => (slot i).isNone)
+  have hV1 : ∀ u ∈ valid, slot u.2 = some u.1 ∧ u.2 < n := by
+    intro u hu
+    obtain ⟨i, hi, he⟩ := List.mem_filterMap.mp hu
+    cases hs : slot i with
+    | none => rw [hs] at he; cases he
+    | some v =>
+      rw [hs] at he
+      have : (v, i) = u := Option.some.inj he
+      subst this; exact ⟨hs, List.mem_range.mp hi⟩
+  have hperm := validPairs_perm slot (List.range n)
+  have hlenV : valid.length + nulls.length = n := by
+    have := hperm.length_eq
+    simpa [valid, nulls] using this
+  have hND : (valid.map (·.2)).Nodup := by
+    have : (valid.map (·.2) ++ nulls).Nodup := (hperm.nodup_iff).mpr List.nodup_range
+    exact (List.nodup_append.mp this).1
+  have hLlen : L.length = valid.length := hLperm.length_eq
+  have hLmem : ∀ u, u ∈ L ↔ u ∈ valid := fun u => hLperm.mem_iff
+  have hLND : (L.map (·.2)).Nodup := ((hLperm.map (·.2)).nodup_iff).mpr hND
+  have hcnt : ∀ v, cntLe c L v = cntLe c valid v := fun v => (hLperm.filter _).length_eq
+  let base := match o.nullsFirst with | true => n - L.length | false => 0
+  -- the loop result, pointwise
+  have hres : ∀ res, res = (match L.reverse with
+      | [] => out
+      | last :: rest => rankLoop (fun a b => cmp a b == Ordering.eq) rest last.1 validRank 1 (out.set last.2 validRank)) →
+      res.length = n ∧ (∀ u ∈ L, res[u.2]? = some (base + cntLe c L u)) ∧
+        (∀ i, i < n → (∀ u ∈ L, u.2 ≠ i) → res[i]? = some nullRank) := by
+    intro res hres
+    cases hrev : L.reverse with
+    | nil =>
+      have hLnil : L = [] := by simpa using hrev
+      rw [hrev] at hres; subst hres
+      refine ⟨by simp [out], by simp [hLnil], ?_⟩
+      intro i hi _; simp [out, hi]
+    | cons last rest =>
+      rw [hrev] at hres; subst hres
+      have hL : L = rest.reverse ++ [last] := by
+        have := congrArg List.reverse hrev; simpa using this
+      have hlastL : last ∈ L := by rw [hL]; simp
+      have hidx : ∀ u ∈ L, u.2 < n := fun u hu => (hV1 u ((hLmem u).mp hu)).2
+      have hall : cntLe c L last = L.length := by
+        unfold cntLe
+        have : L.filter (fun u => c u last != .gt) = L := by
+          apply List.filter_eq_self.mpr
+          intro u hu
+          have hp := hLsorted; rw [hL, List.pairwise_append] at hp
+          rw [hL] at hu
+          rcases List.mem_append.mp hu with h | h
+          · simpa using hp.2.2 u h last (by simp)
+          · have : u = last := by simpa using h
+            subst this
+            have : c u u = .eq := hcT.refl u
+            simp [this]
+        rw [this]
+      have hvr : validRank = base + cntLe c L last := by
+        rw [hall]
+        show (match o.nullsFirst with | true => n | false => L.length)
+          = (match o.nullsFirst with | true => n - L.length | false => 0) + L.length
+        cases o.nullsFirst <;> simp <;> omega
+      have := rankLoop_ok cmp o.descending hcT base rest [] last validRank 1 (out.set last.2 validRank)
+        (by rw [← hL]; exact hLsorted) (by rw [← hL]; exact hvr)
+        (by
+          have h00 : c last last = .eq := hcT.refl last
+          show 1 = ([last].filter (fun u => c u last == .eq)).length
+          rw [List.filter_cons, h00]; rfl)
+        (by rw [← hL]; exact hLND)
+        (by intro u hu; rw [List.length_set]; simp [out]; exact hidx u (by rw [hL]; exact hu))
+        (by
+          intro u hu
+          have : u = last := by simpa using hu
+          subst this
+          rw [← hL, List.getElem?_set_self (by simp [out]; exact hidx u hlastL), hvr])
+      simp only [] at this
+      rw [← hL] at this
+      obtain ⟨r1, r2, r3⟩ := this
+      refine ⟨by rw [r1, List.length_set]; simp [out], r2, ?_⟩
+      intro i hi hne
+      rw [r3 i hne, List.getElem?_set_ne (hne last hlastL)]
+      simp [out, hi]
+  obtain ⟨h1, h2, h3⟩ := hres _ rfl
+  apply List.ext_getElem?
+  intro i
+  by_cases hi : i < n
+  · rw [List.getElem?_map, List.getElem?_range hi, Option.map_some]
+    rw [count_split slot n]
+    cases hsi : slot i with
+    | some v =>
+      have hmem : (v, i) ∈ valid := by
+        apply List.mem_filterMap.mpr
+        exact ⟨i, List.mem_range.mpr hi, by rw [hsi]; rfl⟩
+      rw [h2 (v, i) ((hLmem _).mpr hmem), hcnt]
+      congr 1
+      have e1 : (valid.filter (fun u => compareSlot cmp o (slot u.2) (some v) != .gt)).length
+          = cntLe c valid (v, i) := by
+        unfold cntLe; congr 1; apply List.filter_congr
+        intro u hu; rw [(hV1 u hu).1]; rfl
+      have e2 : (nulls.filter (fun j => compareSlot cmp o (slot j) (some v) != .gt)).length
+          = (match o.nullsFirst with | true => n - L.length | false => 0) := by
+        have hn : ∀ j ∈ nulls, slot j = none := by
+          intro j hj
+          have := (List.mem_filter.mp hj).2
+          cases hs : slot j with
+          | none => rfl
+          | some w => rw [hs] at this; cases this
+        cases hnf : o.nullsFirst with
+        | true =>
+          have : nulls.filter (fun j => compareSlot cmp o (slot j) (some v) != .gt) = nulls := by
+            apply List.filter_eq_self.mpr; intro j hj; rw [hn j hj]; simp [compareSlot, hnf]
+          rw [this]; simp only []; omega
+        | false =>
+          have : nulls.filter (fun j => compareSlot cmp o (slot j) (some v) != .gt) = [] := by
+            apply List.filter_eq_nil_iff.mpr; intro j hj; rw [hn j hj]; simp [compareSlot, hnf]
+          rw [this]; rfl
+      show base + cntLe c valid (v, i) = _
+      rw [e1, e2]; omega
+    | none =>
+      have hne : ∀ u ∈ L, u.2 ≠ i := by
+        intro u hu e
+        have := (hV1 u ((hLmem u).mp hu)).1
+        rw [e, hsi] at this; cases this
+      rw [h3 i hi hne]
+      congr 1
+      have hn : ∀ j ∈ nulls, slot j = none := by
+        intro j hj
+        have := (List.mem_filter.mp hj).2
+        cases hs : slot j with
+        | none => rfl
+        | some w => rw [hs] at this; cases this
+      have e2 : nulls.filter (fun j => compareSlot cmp o (slot j) none != .gt) = nulls := by
+        apply List.filter_eq_self.mpr; intro j hj; rw [hn j hj]; simp [compareSlot]
+      cases hnf : o.nullsFirst with
+      | true =>
+        have e1 : valid.filter (fun u => compareSlot cmp o (slot u.2) none != .gt) = [] := by
+          apply List.filter_eq_nil_iff.mpr; intro u hu; rw [(hV1 u hu).1]; simp [compareSlot, hnf]
+        show (match o.nullsFirst with | true => n - L.length | false => n) = _
+        rw [hnf, e1, e2]; simp only [List.length_nil]; omega
+      | false =>
+        have e1 : valid.filter (fun u => compareSlot cmp o (slot u.2) none != .gt) = valid := by
+          apply List.filter_eq_self.mpr; intro u hu; rw [(hV1 u hu).1]; simp [compareSlot, hnf]
+        show (match o.nullsFirst with | true => n - L.length | false => n) = _
+        rw [hnf, e1, e2]; simp only []; omega
+  · have hge : n ≤ i := Nat.le_of_not_lt hi
+    rw [List.getElem?_eq_none (by rw [h1]; exact hge), List.getElem?_eq_none (by simp; exact hge)]
+
+theorem rankCol_eq_spec {α : Type} (sortBy : PartialSorter) (hs : SortContract sortBy)
+    (cmp : α → α → Ordering) (hc : TotalPreCmp cmp) (o : SortOptions) (col : List (Option α)) :
+    rankCol (fun c xs => sortBy c xs.length xs) cmp o col = rankSpec (rowCmp cmp o col) col.length := by
+  let valid := (List.range col.length).filterMap (fun i => (col.getD i none).map (fun v => (v, i)))
+  let c0 : (α × Nat) → (α × Nat) → Ordering := fun a b => cmp a.1 b.1
+  have hc0 : TotalPreCmp c0 := hc.comap (fun p : α × Nat => p.1)
+  let S := sortBy c0 valid.length valid
+  have hSperm : S.Perm valid := hs.perm c0 _ valid hc0 (Nat.le_refl _)
+  have hSsorted : S.Pairwise (fun a b => c0 a b ≠ .gt) := by
+    have := hs.sorted c0 _ valid hc0 (Nat.le_refl _)
+    have e : S.take valid.length = S := by rw [← hSperm.length_eq]; exact List.take_length
+    rw [e] at this; exact this
+  let L := if o.descending then S.reverse else S
+  have hLperm : L.Perm valid := by
+    show (if o.descending then S.reverse else S).Perm valid
+    split
+    · exact (List.reverse_perm S).trans hSperm
+    · exact hSperm
+  have hLsorted : L.Pairwise (fun u v => applyDesc o.descending (cmp u.1 v.1) ≠ .gt) := by
+    show (if o.descending then S.reverse else S).Pairwise _
+    cases hd : o.descending with
+    | false => simpa [applyDesc] using hSsorted
+    | true =>
+      simp only [if_true]
+      rw [List.pairwise_reverse]
+      refine hSsorted.imp ?_
+      intro a b h
+      show applyDesc true (cmp b.1 a.1) ≠ .gt
+      have : cmp b.1 a.1 = (cmp a.1 b.1).swap := hc.swap a.1 b.1
+      simp only [applyDesc, if_true, this]
+      cases hab : cmp a.1 b.1 <;> simp_all [c0, Ordering.swap]
+  have := rankImpl_ok cmp hc o (fun i => col.getD i none) col.length L hLsorted hLperm
+  exact this
+
+
 end ArrowModel.C10
